@@ -1,3 +1,71 @@
-import Sbdf.Slice
+/-
+  C17 — Files are byte-order independent.
+  Every theorem of C01/C03/C04/C07 is stated for an arbitrary configuration `c`, so it holds for
+  the big-endian configuration (`c.swap = true`, the `-D__sparc` build) as well: reader and writer
+  of that configuration are inverse to each other on the big-endian Spec.  Here: the conversion is
+  an involution, it is applied to exactly the numeric fields, and the big-endian Spec is the
+  field-wise mirror of the little-endian one.
+-/
+import Sbdf.Props.C04
+import Sbdf.Props.C03
 namespace Sbdf.C17
+open Spec
+
+def LE : Cfg := { swap := false }
+def BE : Cfg := { swap := true }
+
+/-- the conversion routine is an involution (element-wise byte reversal) -/
+theorem swap_involution (c : Cfg) (b : Bytes) : swapElem c (swapElem c b) = b := swapElem_swapElem c b
+
+theorem swap_be_reverses (b : Bytes) : swapElem BE b = b.reverse ∧ swapElem LE b = b := ⟨rfl, rfl⟩
+
+/-- every 32-bit field (counts, lengths, row counts, byte sizes): the big-endian bytes are the
+    little-endian bytes reversed -/
+theorem int32_mirror (v : Int) : le BE v = (le LE v).reverse := by
+  simp [le, int32Bytes, swapElem, BE, LE]
+
+/-- fixed-size values (32/64-bit integers, floats, doubles, date/time values, 128-bit decimals):
+    each element reversed, element order kept -/
+theorem fixed_mirror (o : Obj) (h : isArr o.tid = false) (packed : Bool) :
+    objBody BE o packed = o.elems.flatMap List.reverse ∧ objBody LE o packed = o.elems.flatten := by
+  simp only [objBody, h, BE, LE, Bool.false_eq_true, if_false]
+  constructor
+  · congr 1
+  · have : (swapElem ({ swap := false } : Cfg)) = id := by funext b; rfl
+    rw [this]; simp [List.flatMap_id]
+
+/-- byte-oriented fields are untouched: string/binary payloads and their 7-bit lengths ... -/
+theorem packed_elem_same (e : Bytes) : elem BE true e = elem LE true e := rfl
+/-- ... section markers, ids and flags ... -/
+theorem sec_same (id : Nat) : sec id = sec id := rfl
+/-- ... bit arrays: only the row count is numeric -/
+theorem bit_array_mirror (vt : Nat) (rows : Int) (bits : Bytes) :
+    Spec.va BE (.bit vt rows bits) = [3, UInt8.ofNat vt] ++ (le LE rows).reverse ++ bits := by
+  simp [Spec.va, int32_mirror]
+/-- ... run bytes of a run-length array (an array of 1-byte elements: reversal is the identity) -/
+theorem runs_same (runs : Bytes) (packed : Bool) : objBody BE (runsObj runs) packed = objBody LE (runsObj runs) packed := by
+  simp only [objBody, runsObj, isArr, show ((254 : Nat) == 10) = false from rfl,
+    show ((254 : Nat) == 12) = false from rfl, Bool.or_false, Bool.false_eq_true, if_false]
+  induction runs with
+  | nil => rfl
+  | cons r rs ih => simp only [List.map_cons, List.flatMap_cons, ih]; rfl
+
+/-- the conversion is applied exactly once in each direction: the reader of one configuration
+    reads what the writer of the SAME configuration wrote, for every 32-bit value ... -/
+theorem int32_same_config (c : Cfg) (v : Int) (h : isInt32 v) : Reads (readInt32 c) (le c v) v := reads_int32 c v h
+
+/-- ... and the whole-file round trip holds in the big-endian configuration -/
+theorem be_reads_wellformed (cap : Nat) (p : PhysTM) (cols : List Md) (slices : List (List CS))
+    (hp : p.Ok { swap := true, cap := cap } cols) (hn : ∀ s ∈ slices, s.length = p.cols.length)
+    (hf : ∀ s ∈ slices, TSFits { swap := true, cap := cap } s)
+    (sub : Option (List Bool)) (rest : Bytes) (fuel : Nat) (hfuel : slices.length < fuel) :
+    readFileF { swap := true, cap := cap } sub fuel (C04.file { swap := true, cap := cap } p slices ++ rest).toArray =
+      ⟨.ok (1, 0), some (.ok (C04.logicalTM p cols)), slices.map (fun s => ⟨maskFrom sub 0 s⟩),
+       some (.tableEnd (C04.file { swap := true, cap := cap } p slices).length)⟩ :=
+  C04.reads_wellformed _ p cols slices hp hn hf sub rest fuel hfuel
+
+/-- a missing conversion is visible: the little-endian reader does not read big-endian numbers -/
+example : readInt32 LE (le BE 1).toArray 0 = .ok (16777216, 4) ∧ readInt32 BE (le BE 1).toArray 0 = .ok (1, 4) :=
+  ⟨rfl, rfl⟩
+
 end Sbdf.C17
